@@ -8,10 +8,10 @@
 From Coq Require Import ZArith List Bool String Permutation Sorted Relations.
 Import ListNotations.
 From FGV Require Import Base.Util Base.Bond Base.NX Base.NXFacts Model.Permute Model.Match Model.FGTree Model.FGDefaultCfg
-From FGV Require Import Proofs.GenParsed.
                         Spec.Embedding Spec.EmbSearch Spec.FGCheck Spec.FGSpec
                         Proofs.SortFacts Proofs.KeyOrder Proofs.FGTreeProofs Proofs.FGCheckProofs Proofs.FGDefaultTree Proofs.FGDefaultFacts
                         Spec.QuerySpec Proofs.EmbeddingOrder Proofs.SubgroupSem Proofs.EmbSearchProofs Proofs.KeyStrict Proofs.ConcreteHasse Proofs.RefBridge Proofs.QueryClosed.
+From FGV Require Import Proofs.GenParsed.
 
 (** * Abstract part: any item type, is_subgroup abstracted to [sub] with Boolean value [subb]
       on the list, [kltb a b] = "order_id a < order_id b".
